@@ -21,7 +21,9 @@ RULE = (
     "literals) in synthesis position (`y = ov(..)`) and three checking positions (`y: T = ov(..)`, `return ov(..)`, "
     "`consume(ov(..))`), called from a regular function and (subset) from a `@guppy.comptime` function; for about 30% of the sets "
     "2-4 calls with different argument lists of the same arity are additionally written into ONE function in a generated order "
-    "(history dimension), each call judged against its own direct-call oracle.  Variants are derived from "
+    "(history dimension), each call judged against its own direct-call oracle; every nested overloaded variant is also called "
+    "directly before and after outer overloaded functions (the set itself, and one listing it first) are defined over it "
+    "(aliasing dimension).  Variants are derived from "
     "the argument list by near-miss edits (widen a numeric, break a late parameter so that earlier arguments are coerced first, "
     "change arity, generalise to a type variable, change the result type, demand a compile-time value).  non-trivial = at least 2 "
     "variants and the first variant does not accept (per the direct-call oracle)."
@@ -221,8 +223,13 @@ def sig_decl(name, sig):
     return f"@guppy.declare\ndef {name}({', '.join(parts)}) -> {ty_src(r)}: ..."
 
 
-def program(case, direct=None):
-    """source of the test program; direct=k calls variant k directly instead of the overload"""
+def program(case, direct=None, with_outer=None):
+    """source of the test program; direct=k calls variant k directly instead of the overload.  A direct call is the
+    oracle's fresh program and therefore does NOT define the outer overloaded function (with_outer defaults to False
+    there); with_outer=True additionally defines, after `ov`, for every nested overloaded variant k an overloaded function
+    `alias{k}` that lists v{k} FIRST and all other variants after it (the inner function shared by two outer ones)."""
+    if with_outer is None:
+        with_outer = direct is None
     used: set = set()
     args = ", ".join(arg_src(a, used) for a in case["args"])
     out = ['T0 = guppy.type_var("T0")', 'T1 = guppy.type_var("T1")', "not_a_type = 42"]
@@ -239,7 +246,13 @@ def program(case, direct=None):
         else:
             out.append(f"@guppy.declare\ndef sink{k}() -> int: ...")
             out.append(CUSTOM % {"sink": f"sink{k}", "name": f"v{k}"})
-    out.append("@guppy.overload(" + ", ".join(f"v{k}" for k in range(len(case["variants"]))) + ")\ndef ov(): ...")
+    if with_outer:
+        out.append("@guppy.overload(" + ", ".join(f"v{k}" for k in range(len(case["variants"]))) + ")\ndef ov(): ...")
+        if direct is not None:
+            for k, v in enumerate(case["variants"]):
+                if vkind(v) == "o":
+                    rest = [f"v{j}" for j in range(len(case["variants"])) if j != k]
+                    out.append(f"@guppy.overload(v{k}, {', '.join(rest)})\ndef alias{k}(): ...")
     callee = "ov" if direct is None else f"v{direct}"
     params = []
     for t in sorted(used, key=str):
@@ -347,7 +360,7 @@ def real_ty(t):
     return "?" + str(t)
 
 
-def run_real(case, direct=None):
+def run_real(case, direct=None, with_outer=None):
     """-> ('ok', idx, ret, argtys) | ('none',) | ('lin', class) | ('err', class) | ('crash', class)"""
     import ast
 
@@ -357,7 +370,7 @@ def run_real(case, direct=None):
     from guppylang_internals.error import GuppyError
     from guppylang_internals.nodes import GlobalCall
 
-    src = program(case, direct)
+    src = program(case, direct, with_outer)
     try:
         m = feed.load(src, prelude=feed.PRELUDE + PRELUDE_EXTRA)
     except Exception as e:  # noqa: BLE001
@@ -747,7 +760,7 @@ def cases(ctx):
                 out.append(_norm(r))
     if ctx.replay_in:
         out.append(_norm(ctx.replay_in["replay"]["case"]))
-    n = ctx.n(250, 12000)
+    n = ctx.n(250, 9000)
     while n > 0:
         c = rand_case(ctx.rng)
         out.append(_norm(c))
@@ -773,6 +786,17 @@ def judge(ctx, c, ln, mv):
     if r != o:
         ctx.violation(key, f"overloaded call gives `{r}` but the first variant accepting a direct call gives `{o}` "
                       f"(variants accepting directly: {accepted}; position {c['pos']}):\n{src}", replay)
+    # --- aliasing: defining outer overloaded functions over an inner one must not change what the inner one accepts
+    if not c["comptime_caller"]:
+        for k, v in enumerate(c["variants"]):
+            if vkind(v) == "o":
+                alone, _ = run_real(c, direct=k, with_outer=False)
+                shared, src2 = run_real(c, direct=k, with_outer=True)
+                ctx.bump("alias")
+                if show(alone) != show(shared):
+                    ctx.violation(key + f" inner={k}", f"the overloaded function v{k} resolves this call to `{show(alone)}` on its own, but to "
+                                  f"`{show(shared)}` once other overloaded functions have been defined on top of it:\n{src2}",
+                                  dict(replay, inner=k, inner_alone=show(alone), inner_after_outer=show(shared), source=src2))
     # --- model vs real
     if res[0] == "ok" and res[2] == "?":
         agree = mv.split(" ")[0] == str(res[1])          # comptime caller: chosen variant only
